@@ -47,7 +47,25 @@ func c03Unenc(data []byte) string {
 	return fmt.Sprintf("ok mid=%d body=%s", uint64(m.MsgID), showBytes(m.Msg))
 }
 
+// distribution of result kinds per operation, reported in the evidence file
+var c03Kinds = map[string]int{}
+var c03G *G
+
 func c03Exec(op []string) string {
+	out := c03Exec1(op)
+	k := out
+	if i := strings.Index(k, " ok "); i >= 0 {
+		k = "ok"
+	} else if i := strings.Index(k, " err:"); i >= 0 {
+		k = k[i+1:]
+	} else if i := strings.IndexAny(k, "= ("); i >= 0 {
+		k = k[:i]
+	}
+	c03Kinds[op[0]+" "+k]++
+	return out
+}
+
+func c03Exec1(op []string) string {
 	switch op[0] {
 	case "c03.seal":
 		if len(op) != 8 {
@@ -287,7 +305,7 @@ func c03Gen(g *G) {
 		for l := 0; l <= 4096; l++ {
 			c03EmitLen(g, l, "len<=4096")
 		}
-		for i := 0; i < 400; i++ {
+		for i := 0; i < 1200; i++ {
 			c03EmitLen(g, 4097+r.Intn(65536-4097+1), "len<=65536")
 		}
 		for l := 65536 - 40; l <= 65536; l++ {
@@ -340,7 +358,7 @@ func c03Gen(g *G) {
 		g.Emit(fmt.Sprintf("c03.open %s 1 2 7 1 01020304 %s", c03KeyTok(g), hexD(r.Bytes(12+extra))), "open-longpad")
 	}
 	// the fixture of the repository's own test: 23-byte body
-	nR := g.N(150, 3000)
+	nR := g.N(500, 8000)
 	for i := 0; i < nR; i++ {
 		l := r.Intn(600)
 		if r.Intn(8) == 0 {
@@ -391,5 +409,13 @@ func c03Gen(g *G) {
 }
 
 func init() {
-	register(&Prop{Name: "c03", Gen: c03Gen, Exec: c03Exec, Judge: c03Judge})
+	register(&Prop{Name: "c03", Gen: c03Gen, Exec: c03Exec, Judge: c03Judge,
+		Setup: func(g *G) { c03G = g },
+		Teardown: func() {
+			kinds := map[string]interface{}{}
+			for k, v := range c03Kinds {
+				kinds[k] = v
+			}
+			c03G.Extra["result_kinds"] = kinds
+		}})
 }
